@@ -24,7 +24,12 @@ import (
 )
 
 func runTool(env []string, stdout *bytes.Buffer, name string, args ...string) (string, error) {
+	return runToolIn("", env, stdout, name, args...)
+}
+
+func runToolIn(dir string, env []string, stdout *bytes.Buffer, name string, args ...string) (string, error) {
 	cmd := exec.Command(filepath.Join(binDir(), name), args...)
+	cmd.Dir = dir
 	var se bytes.Buffer
 	if stdout != nil {
 		cmd.Stdout = stdout
@@ -93,11 +98,26 @@ func opCliGenDir(a []Sx) Sx {
 	}
 	out := filepath.Join(d, "out.wbn")
 	prefill(out)
-	args := []string{"-version", string(a[0].B), "-dir", root, "-baseURL", string(a[1].B), "-o", out}
+	// a[3] (optional): how -dir is spelled: abs | dot (./root) | slash (root//) | updown (x/../root) | cwd (.)
+	dirArg, cwd := root, ""
+	if len(a) > 3 {
+		switch string(a[3].B) {
+		case "dot":
+			dirArg, cwd = "./root", d
+		case "slash":
+			dirArg, cwd = "root//", d
+		case "updown":
+			os.MkdirAll(filepath.Join(d, "x"), 0755)
+			dirArg, cwd = "x/../root", d
+		case "cwd":
+			dirArg, cwd = ".", root
+		}
+	}
+	args := []string{"-version", string(a[0].B), "-dir", dirArg, "-baseURL", string(a[1].B), "-o", out}
 	if a[0].IsSym("b1") {
 		args = append(args, "-primaryURL", string(a[1].B), "-ignoreErrors")
 	}
-	if se, err := runTool(nil, nil, "gen-bundle", args...); err != nil {
+	if se, err := runToolIn(cwd, nil, nil, "gen-bundle", args...); err != nil {
 		return fail("gen-bundle", se)
 	}
 	fb, err := os.ReadFile(out)
@@ -469,7 +489,7 @@ func genC20(r *Rng, tier string) []Case {
 		if i%5 == 4 {
 			ver = "b1"
 		}
-		cs = append(cs, Case{"cli_gen_dir", []Sx{Sym(ver), B([]byte(bases[r.Intn(len(bases))])), L(tree...)}})
+		cs = append(cs, Case{"cli_gen_dir", []Sx{Sym(ver), B([]byte(bases[r.Intn(len(bases))])), L(tree...), Sym([]string{"abs", "abs", "dot", "slash", "updown", "cwd"}[r.Intn(6)])}})
 		if i%4 == 0 {
 			// sign the same kind of tree with both sub-commands
 			simple := []Sx{L(B([]byte("")), Zi(1), B(nil)), L(B([]byte("index.html")), Zi(0), B([]byte("<html>hi</html>"))), L(B([]byte("a b#c.txt")), Zi(0), B(r.Bytes(100))), L(B([]byte("sub")), Zi(1), B(nil)), L(B([]byte("sub/x?.js")), Zi(0), B(r.Bytes(5000)))}
